@@ -127,6 +127,7 @@ func (e *Enc) instr(in ssa.Instruction) {
 		h := e.get(e.st, k)
 		opt := e.w.so.optSort(e.sortOf(mt.Elem()))
 		e.set(k, store(h, m.S, store(sel(h, m.S), e.val(x.Key).S, fmt.Sprintf("(Some_%s %s)", opt, e.val(x.Value).S))))
+		e.noteTarget(k, x.Map)
 	case *ssa.MakeClosure:
 		e.closures[x] = x
 		e.setVal(x, e.fresh("closure", sInt))
